@@ -25,3 +25,4 @@ INVARIANT StepsMeasureOK
 INVARIANT StepsPostselectOK
 INVARIANT StepsCopyOK
 INVARIANT WalkOK
+INVARIANT Drift_Measure
